@@ -88,15 +88,17 @@ def isDirectiveE : E → Bool
   | .typeD _ _ => true
   | _ => false
 
+/-- the directives of a group applied to what its expressions select: an explicit `case:` replaces the inherited
+    mode, `type:repo` (value 3) lifts to repositories; the other result types select the same documents -/
+def groupMode (cm : CaseMode) (q : Qy) : CaseMode :=
+  match caseOfQ q none with
+  | some m => m
+  | none => cm
+
+def groupLift (c : Corpus) (q : Qy) (v : DocPred) : DocPred :=
+  if (typesOfQ q).contains 3 then repoLift c v else v
+
 mutual
-/-- documents selected by a query of the documented grammar (total; `definedQ` says whether every value is one
-    the documentation defines) -/
-def semQ (O : Oracle) (c : Corpus) (cm : CaseMode) (q : Qy) : DocPred :=
-  let cm' := match caseOfQ q none with
-    | some m => m
-    | none => cm
-  -- `type:repo` (value 3) lifts to repositories; the other result types select the same documents.
-  if (typesOfQ q).contains 3 then repoLift c (semOr O c cm' q) else semOr O c cm' q
 def semOr (O : Oracle) (c : Corpus) (cm : CaseMode) : Qy → DocPred
   | .one cj => semC O c cm cj
   | .or cj r => fun d => semC O c cm cj d || semOr O c cm r d
@@ -108,13 +110,17 @@ def semE (O : Oracle) (c : Corpus) (cm : CaseMode) : E → DocPred
     match keyOf O f text name with
     | none => fun _ => false          -- an unknown language matches nothing
     | some k =>
-      let cs := if caseMatters f then (match cm with | some b => b | none => hasUpper text) else true
-      c.truth k cs
+      c.truth k (if caseMatters f then (match cm with | some b => b | none => hasUpper text) else true)
   | .caseD _ => fun _ => true         -- directives select nothing by themselves
   | .typeD _ _ => fun _ => true
   | .neg e => fun d => !(semE O c cm e d)
-  | .grp _ _ q => semQ O c cm q
+  | .grp _ _ q => groupLift c q (semOr O c (groupMode cm q) q)
 end
+
+/-- documents selected by a query of the documented grammar (total; `definedQ` says whether every value is one
+    the documentation defines) -/
+def semQ (O : Oracle) (c : Corpus) (cm : CaseMode) (q : Qy) : DocPred :=
+  groupLift c q (semOr O c (groupMode cm q) q)
 
 mutual
 /-- every value is one the documentation defines, `-` is not applied to a directive, and every group has at
